@@ -337,6 +337,7 @@ func calls(cfg wl.Config, wname string) (cw, cr, sw, sr int, payloads map[string
 		vs.Go("client", func() { workloads[wname](env); env.Facts["completes"] = true })
 		sched.Quiesce()
 		env.Facts["n"] = [4]int{env.Cli.Writes(), env.Cli.Reads(), env.Srv.Writes(), env.Srv.Reads()}
+		env.Facts["completed-before-teardown"], _ = env.Facts["completes"].(bool) // (the teardown releases a hung workload)
 		for _, b := range env.Cli.Log {
 			payloads["cli"] = append(payloads["cli"], len(b))
 		}
@@ -346,7 +347,7 @@ func calls(cfg wl.Config, wname string) (cw, cr, sw, sr int, payloads map[string
 		env.Teardown()
 	})
 	n := wl.GetEnv(e).Facts["n"].([4]int)
-	completes, _ = wl.GetEnv(e).Facts["completes"].(bool)
+	completes, _ = wl.GetEnv(e).Facts["completed-before-teardown"].(bool)
 	return n[0], n[1], n[2], n[3], payloads, completes
 }
 
